@@ -4,6 +4,7 @@ package ice
 
 import (
 	"bytes"
+	"io"
 	"errors"
 
 	"github.com/RoaringBitmap/roaring"
@@ -73,25 +74,28 @@ func vpH_C12_fail() {
 	sa, sb := vpBuild(a, 1025), vpBuild(b, 2)
 	work := vpChoice("workload", 3)
 	var ref bytes.Buffer
-	run := func(w interface {
-		Write([]byte) (int, error)
-	}) (int64, error) {
-		switch work {
-		case 0:
-			return sa.WriteTo(w, nil)
-		case 1:
-			return vpLoad(vpPersist(sa)).WriteTo(w, nil)
-		default:
-			dr := roaring.New()
-			dr.Add(0)
-			sizes := []int{0, 1, 7, 64}
-			if vpThorough() {
-				sizes = []int{0, 1, 2, 3, 7, 16, 64, 300}
-			}
-			bs := sizes[vpChoice("bufsize", len(sizes))]
-			return Merge([]segment.Segment{sa, sb}, []*roaring.Bitmap{dr, nil}, bs).WriteTo(w, nil)
-		}
+	// ONE object serves every attempt (the reference run, the failing run and
+	// the retry): a segment, a loaded segment, or a Merger
+	type writerTo interface {
+		WriteTo(w io.Writer, closeCh chan struct{}) (int64, error)
 	}
+	var target writerTo
+	switch work {
+	case 0:
+		target = sa
+	case 1:
+		target = vpLoad(vpPersist(sa))
+	default:
+		dr := roaring.New()
+		dr.Add(0)
+		sizes := []int{0, 1, 7, 64}
+		if vpThorough() {
+			sizes = []int{0, 1, 2, 3, 7, 16, 64, 300}
+		}
+		bs := sizes[vpChoice("bufsize", len(sizes))]
+		target = Merge([]segment.Segment{sa, sb}, []*roaring.Bitmap{dr, nil}, bs)
+	}
+	run := func(w io.Writer) (int64, error) { return target.WriteTo(w, nil) }
 	_, err := run(&ref)
 	vpMust(err, "fault-free run")
 	total := uint64(ref.Len())
@@ -102,6 +106,10 @@ func vpH_C12_fail() {
 		if fw.failed {
 			vpAssert(err != nil, "a failing writer is reported as an error")
 			vpReach("C12 failed write")
+			// the retry into a healthy writer: success only with the complete, correct file
+			var again bytes.Buffer
+			n2, err2 := run(&again)
+			vpAssert(err2 != nil || (uint64(n2) == total && bytes.Equal(again.Bytes(), ref.Bytes())), "a retry after a failed attempt succeeds only with the complete, identical file")
 		} else {
 			vpAssert(err == nil, "no error when the writer never failed")
 			vpAssert(uint64(n) == total && bytes.Equal(fw.buf.Bytes(), ref.Bytes()), "complete, identical file when the writer never failed")
